@@ -2439,8 +2439,9 @@ int string_case_compare (parse_node_t ** c1, parse_node_t ** c2) {
 
   i1 = (*c1)->r.number;
   i2 = (*c2)->r.number;
-  p1 = (i1 ? PROG_STRING (i1) : 0);
-  p2 = (i2 ? PROG_STRING (i2) : 0);
+  /* after a "Mixed case label list" error the list also holds number labels: they are not string indices */
+  p1 = ((i1 && (*c1)->kind == NODE_CASE_STRING) ? PROG_STRING (i1) : 0);
+  p2 = ((i2 && (*c2)->kind == NODE_CASE_STRING) ? PROG_STRING (i2) : 0);
 
   return (int)(p1 - p2);
 }
